@@ -62,15 +62,18 @@ def _canon(tokens):
     already value-tagged, so distinct programs differ textually. We strip the case id."""
     return " ".join(tokens)
 
-def corr_stage(scen, quick, thorough, params=None, feature=None, race=False, timeout=900, validate=True, seeds=1):
+def corr_stage(scen, quick, thorough, params=None, feature=None, race=False, timeout=900, validate=True, seeds=1, instrument=False, shards=1, tparams=None):
     """A stage that runs a harness scenario and has the checker decide every K1/K2/F record."""
     def run(ctx):
-        exe = ctx.exe(race=race)
+        exe = ctx.exe(race=race, instrument=instrument)
         n = ctx.budget(quick, thorough)
         for si in range(seeds if ctx.tier_budget == "thorough" else 1):
             seed = ctx.seed + si * 7919
             t0 = time.time()
-            rc, rec, txt = vlib.run_scenario(exe, scen, seed, n, params, timeout=timeout)
+            prm = dict(params or {})
+            if ctx.tier_budget == "thorough" and tparams:
+                prm.update(tparams)
+            rc, rec, txt = vlib.run_sharded(exe, scen, seed, n, prm, shards, timeout=timeout)
             entry = dict(scenario=scen, seed=seed, n=n, params=params or {}, rc=rc)
             if rc != 0:
                 tail = "\n".join(txt.strip().split("\n")[-40:])
@@ -184,6 +187,110 @@ PROPS = {}
 HOOK_COMMITS = []
 NOTES = "See DESIGN.md. All checks: bin/check <id> quick|thorough. Fix commits in /repo are listed in known_findings.json."
 
+def feat_buf(kind):
+    def f(tok):
+        if tok[0] != "K2" or tok[1] != "buffer":
+            return tok[1] + ":" + " ".join(tok[3:]) if tok[0] == "F" else None
+        body = tok[tok.index("#") + 1:]
+        recs = [r for r in _split(body, ";") if r]
+        ops = []
+        for r in recs:
+            parts = _split(r, ":")
+            if len(parts) == 3:
+                ops.append((parts[1], parts[2]))
+        cfg = tok[3:tok.index("#")]
+        sig = " ".join(cfg) + "|" + ";".join(" ".join(o) + ">" + " ".join(r) for o, r in ops)
+        if kind == "C01":   # two or more consumers reading values, with a multi-value batch
+            readers = set(o[1] for o, r in ops if o[0] == "3" and r and r[0] == "0")
+            batch = any(o[0] == "0" and int(o[1]) >= 2 for o, r in ops)
+            return sig if (len(readers) >= 2 and batch) else None
+        if kind == "C02":   # a successful rollback followed by a value read, or a Range
+            rolled = False
+            for o, r in ops:
+                if o[0] == "6" and r == ["3"]:
+                    rolled = True
+                if (rolled and o[0] == "3" and r and r[0] == "0") or o[0] == "100":
+                    return sig
+            return None
+        if kind == "C03":   # a forced trim made some Get fail, or a settled size observation under a non-default cleaner
+            if cfg and cfg[0] != "0" and any(o[0] == "14" for o, r in ops):
+                return sig
+            return None
+        if kind == "C05":   # a Get that parked (probe) or was cancelled while parked
+            return sig if any(o[0] in ("15", "4") for o, r in ops) else None
+        if kind == "C12":
+            return sig if any(o[0] in ("10", "11") for o, r in ops) else None
+        return sig
+    return f
+
+_BUF_NOTE = ("Trusted: Coq kernel, extraction (ExtrOcamlBasic), OCaml checker glue (the linearization search is untrusted only in the sense that a "
+             "false ACCEPT would need a bug in replaying the extracted step), Go harness (logical clock, quiescence detection). Each Buffer/consumer "
+             "method body is one atomic step because it runs under Buffer.mutex / consumer.mutex (obligation of C11); sync.Cond wake-ups are modelled in "
+             "Model/WaitCond.v, not in the Buffer model (a parked Get is a pending operation). Go int offsets unbounded.")
+
+PROPS["C01"] = dict(
+    rule="BUFK1: seeded scripts of Put(batch 0-3)/NewConsumer/Get/Commit/Rollback/Diff/Size/Slice/Settled/Close/Range on a real Buffer (cooldown 0, "
+         "Default/Fixed/custom cleaners), blocking calls left pending and probed at quiescent points; the recorded history (invocation/return ticks) "
+         "must be a history of the extracted model with cleaner/shutdown steps interleaved freely. non-trivial = history in which >= 2 consumers "
+         "received values and a multi-value batch was put; distinct by full op/result sequence",
+    level_text="Theorems (Properties/C01.v) over every schedule of operations, cleaner runs and shutdown steps: the log is append-only and is the "
+               "concatenation of the successful Put batches in lock order; every successful Get returns log[commit+delta] (>= base) and advances by one; "
+               "per consumer the positions ever returned are exactly [start, high) and the pending window is commit..commit+delta-1. Tie: differential "
+               "history acceptance of the real Buffer against the extracted model.",
+    level_note=_BUF_NOTE,
+    stages=[corr_stage("BUFK1", 500, 8000, feature=feat_buf("C01"), seeds=3)],
+)
+PROPS["C02"] = dict(
+    rule="BUFK1 (see C01) including bigbuff.Range and Buffer.Range with scripted callbacks (continue/stop/panic); non-trivial = history with a "
+         "successful Rollback followed by a value read, or a Range call",
+    level_text="Theorems (Properties/C02.v): Rollback/Commit step specifications, empty commit/rollback are error no-ops, the pending window is "
+               "commit..commit+delta-1, commits are permanent under every later schedule. Range/Buffer.Range are executable composites in the model "
+               "(range_loop) tied by correspondence only (their theorems are not yet stated: partial).",
+    level_note=_BUF_NOTE + " PARTIAL: the Range clauses are decided by correspondence with the executable composite, not by a separate theorem.",
+    stages=[corr_stage("BUFK1", 500, 8000, feature=feat_buf("C02"), seeds=3, params={"salt": 2})],
+)
+PROPS["C04"] = dict(
+    rule="C04T: 5 timed scenarios (single consumer, two consumers, closing the slowest, cooldown 0, FixedBufferCleaner) on an INSTRUMENTED build; each "
+         "is run plain and then once per (synchronisation point hit by the scenario, k-th hit <= 3) with a delay of 2.5 cooldowns injected there "
+         "(delay-bounded schedule sweep); after going quiet for 2 cooldowns + slack the settled Size/Slice must be what the model gives after the "
+         "cleaner ran. non-trivial = a sweep run whose delay fired; distinct by (scenario, point, hit)",
+    level_text="Theorems (Properties/C04.v) on the cleaner/timer wake-up protocol at lock-operation granularity with a notify-list condition variable: "
+               "every reachable terminal state is clean (any number of changes, cooldown 0 or >0, every schedule), every run terminates, at most two "
+               "timer firings after the last change; the pre-fix protocol is refuted (F3, fixed by 989b0cf). Tie: timed scenarios with a delay-bounded "
+               "sweep over all instrumentation points of the real code, decided by the Buffer model's OSettled observation.",
+    level_note="Wall-clock bound is proved as a step bound (timer firings) and measured with generous slack, not proved in real time. Trusted: the "
+               "hand-written protocol model (no automatic tie between CleanerProto.v and buffer.go other than the sweep), sync.Cond notify-list semantics, "
+               "instrumenter inserts calls only.",
+    stages=[corr_stage("C04T", 2, 6, feature=lambda tok: tok[2] if (tok[0] == "K2" and "-p" in tok[2]) else None, instrument=True, shards=12,
+                       params={"points": 12}, tparams={"points": 1000}, timeout=1200)],
+)
+PROPS["C05"] = dict(
+    rule="C05S: a Get going to sleep races a Put / a second Put / its context's cancellation / Buffer.Close, plain and with a 2 ms delay injected at "
+         "every instrumentation point the scenario hits (k-th hit <= 2); a Get still parked afterwards is probed and the model must agree it would "
+         "park; after a failed Get the next Get must return the same position. BUFK1 histories with parked/cancelled Gets. non-trivial = history with a "
+         "parked-then-probed or cancelled Get; distinct by op/result sequence and sweep point",
+    level_text="Theorems (Properties/C05.v) on WaitCond at lock-operation granularity: terminal => (predicate or cancelled => returned and unlocked), "
+               "nil only after a true predicate under the lock, error only if cancelled, termination; refuted when the watcher does not take the lock or "
+               "the loop does not re-check the context; Buffer model: a failed Get changes nothing. Tie: delay-bounded sweep + history acceptance.",
+    level_note="'promptly' is a step-bound/terminal-state statement; real-time latency is only measured (400 ms deadline). The WaitCond model is hand-written; "
+               "its tie to sync.go is the sweep over the real code's synchronisation points.",
+    stages=[corr_stage("C05S", 3, 12, feature=feat_buf("C05"), instrument=True, shards=4, tparams={"points": 1000}),
+            corr_stage("BUFK1", 300, 5000, feature=feat_buf("C05"), params={"salt": 5})],
+)
+PROPS["C12"] = dict(
+    rule="C12LEAK: Buffer with 1-3 consumers, reads/commits/rollbacks, parked Gets, shut down in 4 orders (consumers first, buffer first, context "
+         "first, mixed), and Channel with 1-3 polling getters closed explicitly or by its context: termination, Done channels, errors from later "
+         "calls, second Close, and the number of goroutines with a library frame returning to the baseline (goroutine dump, polled up to 2 s). BUFK1 "
+         "histories containing Close operations decided by the model. non-trivial = a case with a parked Get or blocked Close; distinct by shape",
+    level_text="Theorems (Properties/C12.v): Buffer.Close/consumer.Close terminate under the proviso, close Done, deregister every consumer, keep the "
+               "contents, second Close errs; after close Put/NewConsumer/Get/Commit err and change nothing, permanently; Channel likewise; the WaitCond "
+               "watcher has exited in every terminal state where the waiter returned; cleaner/timer goroutines reach a terminal state. Tie: goroutine-dump "
+               "leak monitor + history acceptance. Goroutine-exit clauses of the other types are decided by their own properties' models (C14, C16, C17, C20).",
+    level_note="PARTIAL: 'no goroutine left' is proved per protocol model (WaitCond watcher, cleaner timers) and otherwise observed on the real runtime; "
+               "a single whole-library thread model is not built.",
+    stages=[corr_stage("C12LEAK", 240, 3000, seeds=2),
+            corr_stage("BUFK1", 300, 5000, feature=feat_buf("C12"), params={"salt": 12})],
+)
 PROPS["C13"] = dict(
     level_text="Theorems (Properties/C13.v): for every operation sequence the implementation-level Channel model (buffer + rollback counter as coded) "
                "refines a cursor specification; committed++Buffer() = taken prefix; Get returns the stream element under the cursor; rollback/commit "
@@ -198,11 +305,15 @@ PROPS["C13"] = dict(
             corr_stage("C13K2", 250, 4000, feature=feat_c13, seeds=3)],
 )
 PROPS["C03"] = dict(
-    level_text="Theorems (Properties/C03.v): DefaultCleaner/FixedBufferCleaner/cleanupLogic clamp specifications for every size and offset list over Z. "
-               "Tie: exhaustive small-domain + seeded differential run of the Go functions against the extracted model.",
-    level_note="Trusted: Coq kernel, extraction, harness. Buffer-level retention clauses are added with the Buffer model.",
+    level_text="Theorems (Properties/C03.v): DefaultCleaner/FixedBufferCleaner/cleanupLogic clamp specifications for every size and offset list over Z; "
+               "on the Buffer model, for every schedule: the default cleaner never moves the base past a registered consumer's committed offset (so no "
+               "offset error for a consumer that keeps reading) and not at all without consumers; ANY cleaner only advances the base; an evicted consumer "
+               "errs on every later Get; Slice/Size/Diff characterisation. Tie: exhaustive small-domain + seeded differential run of the Go functions, "
+               "and Buffer histories under FixedBufferCleaner.",
+    level_note=_BUF_NOTE,
     rule="pure cleaners: EXHAUSTIVE over size 0..6 x offset lists of length <= L over -2..8 (L=3 quick, 4 thorough), fixed cleaner over "
          "max,target in -1..8 x size 0..8 x 6 offset lists, plus seeded large values; Go result must equal the model. non-trivial = "
          "offset list mixing negative and positive offsets, or a forced trim (size > max)",
-    stages=[corr_stage("C03F", 2000, 40000, params=None, feature=feat_c03)],
+    stages=[corr_stage("C03F", 2000, 40000, params=None, feature=feat_c03, tparams={"maxlen": 4}),
+            corr_stage("BUFK1", 300, 5000, feature=feat_buf("C03"), params={"salt": 3, "cleaner": 1})],
 )
